@@ -17,7 +17,7 @@ package kmerindex
 //@ func (*Index).ForEachKmerOf
 //@   property C10
 //@   requires ki != nil && s != nil && ki.lookUp != nil && ki.k >= 1
-//@   requires 0 <= start && start + ki.k - 1 <= len(s.Seq) && end <= len(s.Seq)
+//@   requires 0 <= start && end <= len(s.Seq)
 //@   requires lastCall(0) < start && forall p int :: p >= start ==> !calledAt(p)
 //@   callback f requires j > lastCall(0)
 //@   callback f ensures  calledAt(j) && lastCall(0) == j
@@ -28,7 +28,7 @@ package kmerindex
 //@   loop 1 invariant high > start ==> !validAt(ki, s, high - 1)
 //@   loop 1 invariant lastCall(0) < start && forall p int :: p >= start ==> !calledAt(p)
 //@   loop 1 decreases start + ki.k - 1 - basePosition
-//@   loop 2 invariant start <= position && basePosition == position + ki.k - 1 && high <= basePosition && (high == 0 || high > start) && (basePosition <= end || basePosition == start + ki.k - 1)
+//@   loop 2 invariant basePosition == position + ki.k - 1 && high <= basePosition && (high == 0 || high > start) && (start <= position || basePosition >= end) && (basePosition <= end || basePosition <= start + ki.k - 1)
 //@   loop 2 invariant forall t int :: start <= t && high <= t && t < basePosition ==> validAt(ki, s, t)
 //@   loop 2 invariant high > start ==> !validAt(ki, s, high - 1)
 //@   loop 2 invariant lastCall(0) < position && forall p int :: p >= start ==> (calledAt(p) <==> (p < position && validWindow(ki, s, p)))
